@@ -95,7 +95,7 @@ def main():
                % (len(ar), sum(1 for r in ar if r[7]), sum(1 for r in ar if r[6])))
     out.append("| Round | changes | caught at the first attempt | caught now |")
     out.append("|---|---|---|---|")
-    for rn, suffix in ((1, "-agent"), (2, "-agent2"), (3, "-agent3"), (4, "-agent4"), (5, "-agent5"), (6, "-agent6"), (7, "-agent7"), (8, "-agent8"), (9, "-agent9"), (10, "-agent10"), (11, "-agent11")):
+    for rn, suffix in ((1, "-agent"), (2, "-agent2"), (3, "-agent3"), (4, "-agent4"), (5, "-agent5"), (6, "-agent6"), (7, "-agent7"), (8, "-agent8"), (9, "-agent9"), (10, "-agent10"), (11, "-agent11"), (12, "-agent12")):
         rs = [r for r in ar if r[0].endswith(suffix)]
         if rs:
             out.append("| %d | %d | %d | %d |" % (rn, len(rs), sum(1 for r in rs if r[7]), sum(1 for r in rs if r[6])))
